@@ -29,6 +29,11 @@ SUFF = ['s', 'ces', 'ses', 'ves', 'ives', 'xes', 'zes', 'ches', 'shes', 'men', '
 POS = ['n', 'v', 'a', 's', 'r']
 
 
+def custom_normalizer(s):
+    """a caller's own normalizer: lower-case, hyphens and underscores to spaces, 'ss' to sharp s (not what was stored)"""
+    return s.lower().replace('-', ' ').replace('_', ' ').replace('ss', 'ß')
+
+
 def plan(tier, seed):
     return [{'seed': seed * 1000003 + i, 'nq': 40 if tier == 'quick' else 70} for i in range(N[tier])] + [{'kind': 'pytest-under-contracts', 'seed': 0}]
 
@@ -118,7 +123,9 @@ def queries_for(words, r, n):
     for w in words:
         for f in w['forms']:
             qs |= {f, f.lower(), f.upper(), ms.normalize(f), f + 's', f + 'es', f + 'ed', f + 'ing', f + 'er', f + 'est',
-                   f[:-1] if len(f) > 1 else f, f.title(), ' ' + f}
+                   f[:-1] if len(f) > 1 else f, f.title(), ' ' + f,
+                   # what only a caller's own normalizer maps back to the stored form
+                   f.replace(' ', '-'), f.replace(' ', '_').upper(), f.replace('ß', 'ss'), f.upper().replace('ß', 'SS')}
     qs |= set(SUFF) | {'zzz', '', 'résumé', 'Resume', 'ﬁshes', 'FISH'}
     qs.discard('')
     qs = sorted(qs)
@@ -155,12 +162,14 @@ def run_case(case, rec):
                 w0 = wn.Wordnet(' '.join(sel))
                 lemmatizers = [('none', None), ('custom', custom), ('morphy', Morphy()), ('morphy-init', Morphy(w0))]
                 by_key = {w['key']: w for w in words}
-                for norm_on in (True, False):
+                for norm_on in (True, False, custom_normalizer):
                     for all_forms in (True, False):
                         for lname, lem in lemmatizers:
-                            w = wn.Wordnet(' '.join(sel), normalizer=(wn._util.normalize_form if norm_on else None),
+                            if callable(norm_on) and lname in ('morphy', 'morphy-init'):
+                                continue
+                            w = wn.Wordnet(' '.join(sel), normalizer=(norm_on if callable(norm_on) else wn._util.normalize_form if norm_on else None),
                                            search_all_forms=all_forms, lemmatizer=lem)
-                            cfg = f'{scope} norm={norm_on} all_forms={all_forms} lemmatizer={lname}'
+                            cfg = f'{scope} norm={"custom" if callable(norm_on) else norm_on} all_forms={all_forms} lemmatizer={lname}'
                             rec.event('config.' + cfg.replace(' ', ','))
                             for q in qs:
                                 for pos in [None] + r.sample(POS + ['t'], 2):
